@@ -48,8 +48,10 @@ fn install_hook() {
         }
         ledger::set_panic_msg(full);
     }));
-    unsafe {
-        libc::signal(libc::SIGABRT, on_abort as usize);
+    if !cfg!(miri) {
+        unsafe {
+            libc::signal(libc::SIGABRT, on_abort as *const () as usize);
+        }
     }
 }
 
@@ -112,6 +114,7 @@ fn real_main(args: &[String]) -> i32 {
             }
             0
         }
+        Some("determinism") => driver::determinism_cmd(args.get(2).and_then(|s| s.parse().ok()).unwrap_or(20_000)),
         Some("bigstack") => lanes::bigstack_child(&args[2]),
         Some("alloccount") => {
             let t = load_trace(&args[2]);
@@ -135,6 +138,31 @@ fn real_main(args: &[String]) -> i32 {
                     return 5;
                 }
             }
+            0
+        }
+        Some("miri-runs") => {
+            // in-process batch for the Miri lane: no child processes, progress markers on stdout
+            use std::io::Write;
+            let prop = ops::Prop::from_name(&args[2]).expect("prop");
+            let base: u64 = args[3].parse().unwrap();
+            let from: u64 = args[4].parse().unwrap();
+            let to: u64 = args[5].parse().unwrap();
+            let mut ops = 0u64;
+            for i in from..to {
+                println!("RUN {i}");
+                let _ = std::io::stdout().flush();
+                let seed = rng::run_seed(base, prop.num() ^ 0x4D49_5249, i);
+                let mut t = props::gen_trace(prop, seed);
+                // keep interpreted runs short
+                t.ops.truncate(24);
+                let r = run::run_trace(&t, false);
+                ops += r.ops_executed;
+                if let Some(v) = r.violation {
+                    println!("MIRI-VIOLATION {}", serde_json::to_string(&driver::replay_json(&t, &v, r.hash, t.ops.len(), 0)).unwrap());
+                    return 1;
+                }
+            }
+            println!("MIRI-OK runs={} ops={ops}", to - from);
             0
         }
         Some("run") => {
